@@ -165,14 +165,17 @@ def part_trace(ck, name, cases, steps, seed_off=0):
 def part_sbs(ck, tier):
     wd = vlib.workdir(PID, "sbs")
     vlib.stage_specs(wd, "intset", "common")
-    cfg = "SparseBitSetMC_quick.cfg" if tier == "quick" else "SparseBitSetMC_thorough.cfg"
-    r = vlib.run_tlc(wd, "SparseBitSetMC", cfg=cfg, workers=4 if tier == "quick" else 12, timeout=3000)
-    ck.add_tlc("tlc:sparse-bit-set", r)
-    if not r.ok:
-        ck.spec_error("SparseBitSetMC", r)
-    res = vlib.run_harness("fv-read", ["c14", "sbs-replay", "--cases", r.out])
-    ck.add_harness("replay:sparse-bit-set", res)
-    os.remove(r.out)
+    # the quick family in both tiers (it holds the members clipped at 10^9, whose sets span two million bit pages: a few
+    # hundred of them are affordable, the thorough family's hundred thousands are not - that one is clipped at 10^6)
+    for cfg in (["SparseBitSetMC_quick.cfg"] if tier == "quick" else ["SparseBitSetMC_quick.cfg", "SparseBitSetMC_thorough.cfg"]):
+        name = "sparse-bit-set" + ("" if cfg.endswith("quick.cfg") else "-thorough")
+        r = vlib.run_tlc(wd, "SparseBitSetMC", cfg=cfg, workers=4 if tier == "quick" else 12, timeout=3000)
+        ck.add_tlc("tlc:" + name, r)
+        if not r.ok:
+            ck.spec_error("SparseBitSetMC", r)
+        res = vlib.run_harness("fv-read", ["c14", "sbs-replay", "--cases", r.out], timeout=3000)
+        ck.add_harness("replay:" + name, res)
+        os.remove(r.out)
     # deeper trees with biases that are not page aligned (filled nodes crossing 512-value page edges)
     r = vlib.run_tlc(wd, "SparseBitSetMC", cfg="SparseBitSetMC_deep.cfg", workers=4 if tier == "quick" else 12, timeout=3000, out_name="deep.out")
     ck.add_tlc("tlc:sparse-bit-set-deep", r)
